@@ -1,6 +1,6 @@
 module verifharness
 
-go 1.21
+go 1.23
 
 require (
 	github.com/anishathalye/porcupine v1.3.0
